@@ -22,6 +22,7 @@ Remark (`validate_total`): `validate` (Model/Validate.lean) is a total pure func
 (no `M`, no fuel), so "validate() always returns and touches no buffer" holds by construction.
 -/
 import ElfioVerif.Lemmas.LoadSafety
+import ElfioVerif.Lemmas.Inspect
 import ElfioVerif.Model.Validate
 namespace ElfioVerif.C01
 open ElfioVerif Gen
@@ -317,6 +318,462 @@ theorem getString_total {tr img} (b : SecBuf) (hb : LoadedSec tr b img) (idx : B
   rw [h1, slice_slice _ _ _ _ _ (by have := hc.inside; omega)] at h2
   exact h2
 
+/-! ### the inspection interface (Model/Inspect.lean) -/
+
+open Inspect in
+/-- `sections[i]->get_data()` on the object keeps the invariant; the section handed to the
+    accessors satisfies `LoadedSec` and is settled -/
+theorem secResident_spec (o : Obj) (img : Bytes) (h : ObjInv o img) (i : Nat) :
+    secResident o i = none ∨
+    ∃ o1 b1, secResident o i = some (o1, b1) ∧ ObjInv o1 img ∧ LoadedSec o1.trans b1 img ∧ Settled b1 ∧
+      Frame o o1 := by
+  unfold secResident
+  cases hget : o.secs[i]? with
+  | none => exact Or.inl rfl
+  | some b =>
+    right
+    have hs0 : StOk o.trans img o.stream.kind { st := o.stream } := ⟨h.sdata, rfl, fun a ha => by cases ha⟩
+    obtain ⟨h1, h2, -⟩ := secGetData_spec o.cls o.trans _ b img _ hs0 (h.secs b (List.mem_of_getElem? hget))
+    refine ⟨_, _, rfl, ⟨h1.data, ?_, h.segs⟩, h2, secGetData_settled _ _ _ _, Frame.of_secs (by simp) rfl⟩
+    intro b' hb'
+    rcases mem_set hb' with hb' | rfl
+    · exact h.secs b' hb'
+    · exact h2
+
+open Inspect in
+theorem segResident_spec (o : Obj) (img : Bytes) (h : ObjInv o img) (j : Nat) :
+    segResident o j = none ∨
+    ∃ o1 g1, segResident o j = some (o1, g1) ∧ ObjInv o1 img ∧ LoadedSeg o1.trans g1 img ∧ Frame o o1 := by
+  unfold segResident
+  cases hget : o.segs[j]? with
+  | none => exact Or.inl rfl
+  | some g =>
+    right
+    have hs0 : StOk o.trans img o.stream.kind { st := o.stream } := ⟨h.sdata, rfl, fun a ha => by cases ha⟩
+    obtain ⟨h1, h2, -⟩ := segGetData_spec o.cls o.trans _ g img _ hs0 (h.segs g (List.mem_of_getElem? hget))
+    refine ⟨_, _, rfl, ⟨h1.data, h.secs, ?_⟩, h2, rfl, ?_⟩
+    · intro g' hg'
+      rcases mem_set hg' with hg' | rfl
+      · exact h.segs g' hg'
+      · exact h2
+    · intro g' hg'
+      rcases mem_set hg' with hg' | rfl
+      · exact ⟨g', hg', rfl⟩
+      · exact ⟨g, List.mem_of_getElem? hget, segGetData_secs _ _ _ _⟩
+
+/-- the size bound the note reader needs (`C13.get_note_total`): the input is at most 2^32 - 3
+    bytes long (every resident section / segment is then at most that large) -/
+def InputBound (img : Bytes) : Prop := img.length ≤ 4294967293
+
+open Inspect in
+/-- the note accessor on a loaded, resident section: constructor and every index -/
+theorem secNotes_total {tr img} (e : Enc) {b : SecBuf} (hL : LoadedSec tr b img) (hlen : InputBound img) :
+    ∃ pos, Note.process e b.noteSrc = .ok pos ∧ ∀ k : BitVec 32, ∃ r, Note.get e b.noteSrc pos k = .ok r :=
+  notes_total e b.noteSrc (secNoteSrc_ok hL) (fun a ha => by
+    have := LoadedSec.size_le hL (d := a) ha
+    unfold InputBound at hlen
+    simp only [SecBuf.noteSrc] at *
+    omega)
+
+open Inspect in
+theorem segNotes_total {tr img} (e : Enc) {g : Seg} (hL : LoadedSeg tr g img) (hlen : InputBound img) :
+    ∃ pos, Note.process e (segNoteSrc g) = .ok pos ∧
+      ∀ k : BitVec 32, ∃ r, Note.get e (segNoteSrc g) pos k = .ok r :=
+  notes_total e (segNoteSrc g) (segNoteSrc_ok hL) (fun a ha => by
+    have := LoadedSeg.size_le hL (d := a) ha
+    unfold InputBound at hlen
+    simp only [segNoteSrc] at *
+    omega)
+
+open Inspect in
+/-- the dynamic accessor's two sections after `dynSetup` -/
+theorem dynSetup_spec (o : Obj) (img : Bytes) (h : ObjInv o img) (i : Nat) :
+    dynSetup o i = none ∨
+    ∃ o1 a, dynSetup o i = some (o1, a) ∧ ObjInv o1 img ∧ DynReady a ∧ Frame o o1 := by
+  unfold dynSetup
+  rcases secResident_spec o img h i with e | ⟨o1, b, e, h1, hL, hS, hf1⟩
+  · rw [e]; exact Or.inl rfl
+  · simp only [e]
+    right
+    rcases secResident_spec o1 img h1 (dynStrIdx b) with e2 | ⟨o2, s, e2, h2, hL2, hS2, hf2⟩
+    · simp only [e2]
+      exact ⟨_, _, rfl, h1, ⟨hS, hL.bufOk, fun s hs => (by cases hs), Nat.zero_le _⟩, hf1⟩
+    · simp only [e2]
+      refine ⟨_, _, rfl, h2, ⟨hS, hL.bufOk, ?_, Nat.zero_le _⟩, hf1.trans hf2⟩
+      intro s' hs'
+      simp only [mkDyn, Option.some.injEq] at hs'
+      subst hs'
+      exact ⟨hS2, hL2.bufOk⟩
+
+open Inspect in
+theorem symSetup_spec (o : Obj) (img : Bytes) (h : ObjInv o img) (i : Nat) :
+    symSetup o i = none ∨
+    ∃ o1 t, symSetup o i = some (o1, t) ∧ ObjInv o1 img ∧ SymReady t ∧ Frame o o1 := by
+  unfold symSetup
+  rcases secResident_spec o img h i with e | ⟨o1, b, e, h1, hL, hS, hf1⟩
+  · rw [e]; exact Or.inl rfl
+  · simp only [e]
+    right
+    rcases secResident_spec o1 img h1 (symStrIdx b) with e2 | ⟨o2, s, e2, h2, hL2, hS2, hf2⟩
+    · simp only [e2]
+      exact ⟨_, _, rfl, h1, ⟨hS, hL.bufOk, fun s hs => (by cases hs)⟩, hf1⟩
+    · simp only [e2]
+      refine ⟨_, _, rfl, h2, ⟨hS, hL.bufOk, ?_⟩, hf1.trans hf2⟩
+      intro s' hs'
+      simp only [Option.some.injEq] at hs'
+      subst hs'
+      exact ⟨hS2, hL2.bufOk⟩
+
+/-- the invariant of an object under inspection: the loader invariant of every section/segment
+    (`ObjInv`) and valid segment member lists (`MembersOk`) — both established by `load` -/
+structure InspInv (o : Obj) (img : Bytes) : Prop where
+  obj : ObjInv o img
+  mem : MembersOk o
+
+theorem load_inspInv (o : Obj) (img : Bytes) (kind : StreamKind) (isLazy : Bool) (r : LoadRes)
+    (h : load o { data := img, kind := kind } isLazy = .ok r) : InspInv r.obj img :=
+  ⟨load_objInv o img kind isLazy r h, load_members o _ isLazy r h⟩
+
+open Inspect in
+theorem InspInv.step {o o1 : Obj} {img : Bytes} (h : InspInv o img) (h1 : ObjInv o1 img) (f : Frame o o1) :
+    InspInv o1 img := ⟨h1, f.members h.mem⟩
+
+/-! #### the read trace of `dump` -/
+
+open Inspect in
+theorem dumpSymSec_total (img : Bytes) (o : Obj) (i : Nat) (h : InspInv o img) :
+    ∃ o', dumpSymSec o i = .ok o' ∧ InspInv o' img := by
+  unfold dumpSymSec
+  cases hget : o.secs[i]? with
+  | none => exact ⟨o, rfl, h⟩
+  | some b =>
+    dsimp only
+    split
+    · rcases symSetup_spec o img h.obj i with e | ⟨o1, t, e, h1, hR, hf⟩
+      · simp only [e]; exact ⟨o, rfl, h⟩
+      · simp only [e]
+        obtain ⟨n, hn, -⟩ := sym_num_total t
+        simp only [hn, allSyms_total t hR]
+        exact ⟨o1, rfl, h.step h1 hf⟩
+    · exact ⟨o, rfl, h⟩
+
+open Inspect in
+theorem dumpNoteSec_total (img : Bytes) (hlen : InputBound img) (o : Obj) (i : Nat) (h : InspInv o img) :
+    ∃ o', dumpNoteSec o i = .ok o' ∧ InspInv o' img := by
+  unfold dumpNoteSec
+  cases hget : o.secs[i]? with
+  | none => exact ⟨o, rfl, h⟩
+  | some b =>
+    dsimp only
+    split
+    · rcases secResident_spec o img h.obj i with e | ⟨o1, b1, e, h1, hL, -, hf⟩
+      · simp only [e]; exact ⟨o, rfl, h⟩
+      · simp only [e]
+        obtain ⟨pos, hp, hg⟩ := secNotes_total o1.enc hL hlen
+        simp only [hp, allNotes_total _ _ _ hg]
+        exact ⟨o1, rfl, h.step h1 hf⟩
+    · exact ⟨o, rfl, h⟩
+
+open Inspect in
+theorem dumpNoteSeg_total (img : Bytes) (hlen : InputBound img) (o : Obj) (j : Nat) (h : InspInv o img) :
+    ∃ o', dumpNoteSeg o j = .ok o' ∧ InspInv o' img := by
+  unfold dumpNoteSeg
+  cases hget : o.segs[j]? with
+  | none => exact ⟨o, rfl, h⟩
+  | some g =>
+    dsimp only
+    split
+    · rcases segResident_spec o img h.obj j with e | ⟨o1, g1, e, h1, hL, hf⟩
+      · simp only [e]; exact ⟨o, rfl, h⟩
+      · simp only [e]
+        obtain ⟨pos, hp, hg⟩ := segNotes_total o1.enc hL hlen
+        simp only [hp, allNotes_total _ _ _ hg]
+        exact ⟨o1, rfl, h.step h1 hf⟩
+    · exact ⟨o, rfl, h⟩
+
+open Inspect in
+theorem dumpModinfo_total (img : Bytes) (o : Obj) (h : InspInv o img) :
+    ∃ o', dumpModinfo o = .ok o' ∧ InspInv o' img := by
+  unfold dumpModinfo
+  cases hfi : o.secs.findIdx? (fun b => b.name == modinfoName) with
+  | none => exact ⟨o, rfl, h⟩
+  | some i =>
+    dsimp only
+    rcases secResident_spec o img h.obj i with e | ⟨o1, b1, e, h1, hL, hS, hf⟩
+    · simp only [e]; exact ⟨o, rfl, h⟩
+    · simp only [e]
+      obtain ⟨c, hc⟩ := modinfo_total (ready_of_loaded hL hS)
+      simp only [hc]
+      exact ⟨o1, rfl, h.step h1 hf⟩
+
+open Inspect in
+theorem dumpDynSec_total (img : Bytes) (o : Obj) (i : Nat) (h : InspInv o img) :
+    ∃ o', dumpDynSec o i = .ok o' ∧ InspInv o' img := by
+  unfold dumpDynSec
+  cases hget : o.secs[i]? with
+  | none => exact ⟨o, rfl, h⟩
+  | some b =>
+    dsimp only
+    split
+    · rcases dynSetup_spec o img h.obj i with e | ⟨o1, a, e, h1, hR, hf⟩
+      · simp only [e]; exact ⟨o, rfl, h⟩
+      · simp only [e]
+        obtain ⟨n, hn, hle⟩ := dyn_entriesNum_total a hR
+        simp only [hn, dynDumpLoop_total n n.toNat _ 0 (hR.withCache n hle)]
+        exact ⟨o1, rfl, h.step h1 hf⟩
+    · exact ⟨o, rfl, h⟩
+
+open Inspect in
+theorem dumpSecData_total (img : Bytes) (o : Obj) (i : Nat) (h : InspInv o img) :
+    ∃ o', dumpSecData o i = .ok o' ∧ InspInv o' img := by
+  unfold dumpSecData
+  cases hget : o.secs[i]? with
+  | none => exact ⟨o, rfl, h⟩
+  | some b =>
+    dsimp only
+    split
+    · exact ⟨o, rfl, h⟩
+    · rcases secResident_spec o img h.obj i with e | ⟨o1, b1, e, h1, hL, -, hf⟩
+      · simp only [e]; exact ⟨o, rfl, h⟩
+      · simp only [e]
+        cases hd : b1.data with
+        | none => exact ⟨o1, rfl, h.step h1 hf⟩
+        | some d =>
+          simp only [Option.isSome_some, if_true]
+          rw [rdRange_some_ok (by have := hL.len d hd; omega)]
+          exact ⟨o1, rfl, h.step h1 hf⟩
+
+open Inspect in
+theorem dumpSegData_total (img : Bytes) (o : Obj) (j : Nat) (h : InspInv o img) :
+    ∃ o', dumpSegData o j = .ok o' ∧ InspInv o' img := by
+  unfold dumpSegData
+  rcases segResident_spec o img h.obj j with e | ⟨o1, g1, e, h1, hL, hf⟩
+  · simp only [e]; exact ⟨o, rfl, h⟩
+  · simp only [e]
+    cases hd : g1.data with
+    | none => exact ⟨o1, rfl, h.step h1 hf⟩
+    | some d =>
+      simp only [Option.isSome_some, if_true]
+      rw [rdRange_some_ok (by have := hL.len d hd; omega)]
+      exact ⟨o1, rfl, h.step h1 hf⟩
+
+open Inspect in
+/-- **dump_total** : every read the dump facility performs on a loaded object — the lookup of every
+    segment's member sections, the symbol, note (every descriptor byte), modinfo and dynamic readers
+    on every section / segment it selects, the first 64 data bytes of every section and segment —
+    stays inside the buffers and meets no null pointer, and the object keeps the invariant (lazily
+    loaded parts became resident). -/
+theorem dump_total (img : Bytes) (hlen : InputBound img) (o : Obj) (h : InspInv o img) :
+    ∃ o', Inspect.dump o = .ok o' ∧ InspInv o' img := by
+  unfold Inspect.dump
+  have e0 := dumpSegMembers_total o h.mem
+  obtain ⟨o1, e1, h1⟩ := forIdx_total (fun o => InspInv o img) dumpSymSec
+    (fun s i hs => dumpSymSec_total img s i hs) (List.range o.secs.length) o h
+  obtain ⟨o2, e2, h2⟩ := forIdx_total (fun o => InspInv o img) dumpNoteSec
+    (fun s i hs => dumpNoteSec_total img hlen s i hs) (List.range o1.secs.length) o1 h1
+  obtain ⟨o3, e3, h3⟩ := forIdx_total (fun o => InspInv o img) dumpNoteSeg
+    (fun s i hs => dumpNoteSeg_total img hlen s i hs) (List.range (half o2.segs.length)) o2 h2
+  obtain ⟨o4, e4, h4⟩ := dumpModinfo_total img o3 h3
+  obtain ⟨o5, e5, h5⟩ := forIdx_total (fun o => InspInv o img) dumpDynSec
+    (fun s i hs => dumpDynSec_total img s i hs) (List.range o4.secs.length) o4 h4
+  obtain ⟨o6, e6, h6⟩ := forIdx_total (fun o => InspInv o img) dumpSecData
+    (fun s i hs => dumpSecData_total img s i hs) ((List.range (half o5.secs.length)).drop 1) o5 h5
+  obtain ⟨o7, e7, h7⟩ := forIdx_total (fun o => InspInv o img) dumpSegData
+    (fun s i hs => dumpSegData_total img s i hs) (List.range (half o6.segs.length)) o6 h6
+  refine ⟨o7, ?_, h7⟩
+  simp only [bindM, e0, e1, e2, e3, e4, e5, e6, e7]
+
+/-! #### one query, sequences of queries -/
+
+open Inspect in
+/-- **inspect_total** : on an object satisfying the invariant `InspInv` (what `load` establishes:
+    `load_inspInv`), for an input of at most 2^32 - 3 bytes, EVERY query of the inspection interface —
+    header/section/segment getters and data, `free_data`, the string, note (section and segment),
+    dynamic, symbol-by-index and modinfo readers with ARBITRARY section/segment and entry indices,
+    `validate()`, and the read trace of the dump facility — returns without a fault (no access outside
+    a buffer, no null dereference, no division by zero, no exhausted fuel), and the invariant holds of
+    the resulting object. -/
+theorem inspect_total (img : Bytes) (hlen : InputBound img) (o : Obj) (h : InspInv o img) (q : Query) :
+    ∃ o' out, inspect o q = .ok (o', out) ∧ InspInv o' img := by
+  cases q with
+  | hdr => exact ⟨o, _, rfl, h⟩
+  | sec i data =>
+    simp only [inspect]
+    cases hget : o.secs[i]? with
+    | none => exact ⟨o, _, rfl, h⟩
+    | some b =>
+      dsimp only
+      split
+      · rcases secResident_spec o img h.obj i with e | ⟨o1, b1, e, h1, -, -, hf⟩
+        · simp only [e]; exact ⟨o, _, rfl, h⟩
+        · simp only [e]; exact ⟨o1, _, rfl, h.step h1 hf⟩
+      · exact ⟨o, _, rfl, h⟩
+  | seg j data =>
+    simp only [inspect]
+    cases hget : o.segs[j]? with
+    | none => exact ⟨o, _, rfl, h⟩
+    | some g =>
+      dsimp only
+      split
+      · rcases segResident_spec o img h.obj j with e | ⟨o1, g1, e, h1, -, hf⟩
+        · simp only [e]; exact ⟨o, _, rfl, h⟩
+        · simp only [e]; exact ⟨o1, _, rfl, h.step h1 hf⟩
+      · exact ⟨o, _, rfl, h⟩
+  | secFree i =>
+    have := request_inv o img (.secFree i) h.obj
+    simp only [inspect]
+    simp only [request] at this
+    cases hget : o.secs[i]? with
+    | none => exact ⟨o, _, rfl, h⟩
+    | some b =>
+      rw [hget] at this
+      exact ⟨_, _, rfl, h.step this.1 (Frame.of_secs (by simp) rfl)⟩
+  | segFree j =>
+    have := request_inv o img (.segFree j) h.obj
+    simp only [inspect]
+    simp only [request] at this
+    cases hget : o.segs[j]? with
+    | none => exact ⟨o, _, rfl, h⟩
+    | some g =>
+      rw [hget] at this
+      refine ⟨_, _, rfl, h.step this.1 ⟨rfl, ?_⟩⟩
+      intro g' hg'
+      rcases mem_set hg' with hg' | rfl
+      · exact ⟨g', hg', rfl⟩
+      · refine ⟨g, List.mem_of_getElem? hget, ?_⟩
+        unfold Inspect.segFree; split <;> rfl
+  | str i k =>
+    simp only [inspect]
+    rcases secResident_spec o img h.obj i with e | ⟨o1, b1, e, h1, hL, -, hf⟩
+    · simp only [e]; exact ⟨o, _, rfl, h⟩
+    · simp only [e]
+      obtain ⟨r, hr, -⟩ := getString_total' b1 hL.bufOk k
+      simp only [hr]
+      exact ⟨o1, _, rfl, h.step h1 hf⟩
+  | noteNum i =>
+    simp only [inspect]
+    rcases secResident_spec o img h.obj i with e | ⟨o1, b1, e, h1, hL, -, hf⟩
+    · simp only [e]; exact ⟨o, _, rfl, h⟩
+    · simp only [e]
+      obtain ⟨pos, hp, -⟩ := secNotes_total o1.enc hL hlen
+      simp only [hp]
+      exact ⟨o1, _, rfl, h.step h1 hf⟩
+  | note i k =>
+    simp only [inspect]
+    rcases secResident_spec o img h.obj i with e | ⟨o1, b1, e, h1, hL, -, hf⟩
+    · simp only [e]; exact ⟨o, _, rfl, h⟩
+    · simp only [e]
+      obtain ⟨pos, hp, hg⟩ := secNotes_total o1.enc hL hlen
+      obtain ⟨r, hr⟩ := hg k
+      simp only [hp, hr]
+      exact ⟨o1, _, rfl, h.step h1 hf⟩
+  | segNoteNum j =>
+    simp only [inspect]
+    rcases segResident_spec o img h.obj j with e | ⟨o1, g1, e, h1, hL, hf⟩
+    · simp only [e]; exact ⟨o, _, rfl, h⟩
+    · simp only [e]
+      obtain ⟨pos, hp, -⟩ := segNotes_total o1.enc hL hlen
+      simp only [hp]
+      exact ⟨o1, _, rfl, h.step h1 hf⟩
+  | segNote j k =>
+    simp only [inspect]
+    rcases segResident_spec o img h.obj j with e | ⟨o1, g1, e, h1, hL, hf⟩
+    · simp only [e]; exact ⟨o, _, rfl, h⟩
+    · simp only [e]
+      obtain ⟨pos, hp, hg⟩ := segNotes_total o1.enc hL hlen
+      obtain ⟨r, hr⟩ := hg k
+      simp only [hp, hr]
+      exact ⟨o1, _, rfl, h.step h1 hf⟩
+  | dynNum i =>
+    simp only [inspect]
+    rcases dynSetup_spec o img h.obj i with e | ⟨o1, a, e, h1, hR, hf⟩
+    · simp only [e]; exact ⟨o, _, rfl, h⟩
+    · simp only [e]
+      obtain ⟨n, hn, -⟩ := dyn_entriesNum_total a hR
+      simp only [hn]
+      exact ⟨o1, _, rfl, h.step h1 hf⟩
+  | dyn i k =>
+    simp only [inspect]
+    rcases dynSetup_spec o img h.obj i with e | ⟨o1, a, e, h1, hR, hf⟩
+    · simp only [e]; exact ⟨o, _, rfl, h⟩
+    · simp only [e]
+      obtain ⟨n, r, hr, -⟩ := dyn_getEntry_total a hR k
+      simp only [hr]
+      exact ⟨o1, _, rfl, h.step h1 hf⟩
+  | modinfo i =>
+    simp only [inspect]
+    rcases secResident_spec o img h.obj i with e | ⟨o1, b1, e, h1, hL, hS, hf⟩
+    · simp only [e]; exact ⟨o, _, rfl, h⟩
+    · simp only [e]
+      obtain ⟨c, hc⟩ := modinfo_total (ready_of_loaded hL hS)
+      simp only [hc]
+      exact ⟨o1, _, rfl, h.step h1 hf⟩
+  | modinfoGet i k =>
+    simp only [inspect]
+    rcases secResident_spec o img h.obj i with e | ⟨o1, b1, e, h1, hL, hS, hf⟩
+    · simp only [e]; exact ⟨o, _, rfl, h⟩
+    · simp only [e]
+      obtain ⟨c, hc⟩ := modinfo_total (ready_of_loaded hL hS)
+      simp only [hc]
+      exact ⟨o1, _, rfl, h.step h1 hf⟩
+  | modinfoByName i f =>
+    simp only [inspect]
+    rcases secResident_spec o img h.obj i with e | ⟨o1, b1, e, h1, hL, hS, hf⟩
+    · simp only [e]; exact ⟨o, _, rfl, h⟩
+    · simp only [e]
+      obtain ⟨c, hc⟩ := modinfo_total (ready_of_loaded hL hS)
+      simp only [hc]
+      exact ⟨o1, _, rfl, h.step h1 hf⟩
+  | symNum i =>
+    simp only [inspect]
+    rcases symSetup_spec o img h.obj i with e | ⟨o1, t, e, h1, hR, hf⟩
+    · simp only [e]; exact ⟨o, _, rfl, h⟩
+    · simp only [e]
+      obtain ⟨n, hn, -⟩ := sym_num_total t
+      simp only [hn]
+      exact ⟨o1, _, rfl, h.step h1 hf⟩
+  | sym i k =>
+    simp only [inspect]
+    rcases symSetup_spec o img h.obj i with e | ⟨o1, t, e, h1, hR, hf⟩
+    · simp only [e]; exact ⟨o, _, rfl, h⟩
+    · simp only [e]
+      obtain ⟨r, hr⟩ := getSym_total t hR k
+      simp only [hr]
+      exact ⟨o1, _, rfl, h.step h1 hf⟩
+  | validate => exact ⟨o, _, rfl, h⟩
+  | dump =>
+    simp only [inspect]
+    obtain ⟨o1, e, h1⟩ := dump_total img hlen o h
+    simp only [e]
+    exact ⟨o1, _, rfl, h1⟩
+
+open Inspect in
+/-- **inspect_seq_total** : … hence every finite sequence of queries (lazy loads mutate the object;
+    the state is threaded) returns, and the invariant holds at the end. -/
+theorem inspect_seq_total (img : Bytes) (hlen : InputBound img) (qs : List Query) :
+    ∀ (o : Obj), InspInv o img → ∃ o' outs, inspectSeq o qs = .ok (o', outs) ∧ InspInv o' img ∧
+      outs.length = qs.length := by
+  induction qs with
+  | nil => intro o h; exact ⟨o, [], rfl, h, rfl⟩
+  | cons q qs ih =>
+    intro o h
+    obtain ⟨o1, out, e1, h1⟩ := inspect_total img hlen o h q
+    obtain ⟨o2, outs, e2, h2, hl⟩ := ih o1 h1
+    refine ⟨o2, out :: outs, ?_, h2, by simp [hl]⟩
+    unfold inspectSeq
+    simp only [e1, e2]
+    rfl
+
+open Inspect in
+/-- **load_inspect_total** (the property's sentence): load ANY byte string of at most 2^32 - 3 bytes,
+    eagerly or lazily, from a string- or file-backed stream, into any object; then ask ANY finite
+    sequence of inspection queries with arbitrary indices: nothing faults. -/
+theorem load_inspect_total (o : Obj) (img : Bytes) (kind : StreamKind) (isLazy : Bool) (r : LoadRes)
+    (hload : load o { data := img, kind := kind } isLazy = .ok r) (hlen : img.length ≤ 4294967293)
+    (qs : List Query) :
+    ∃ o' outs, inspectSeq r.obj qs = .ok (o', outs) ∧ InspInv o' img ∧ outs.length = qs.length :=
+  inspect_seq_total img hlen qs r.obj (load_inspInv o img kind isLazy r hload)
+
 /-! ### non-vacuity -/
 
 /-- a 64-byte ELF64/LSB image: just the ELF header, no tables -/
@@ -373,5 +830,53 @@ example :
     some [[some none, some none, some none, some none],
           [some (some [46, 115, 104, 115, 116, 114, 116, 97, 98]), some (some [116, 114, 116, 97, 98]),
            some (some []), some none]] := by decide
+
+/-- a 268-byte ELF64/LSB image: one program header (PT_NOTE over [120,140)), the note
+    `namesz 4 "GNU\0", descsz 4 [1,2,3,4], type 1` at offset 120, two section headers at 140 (the null
+    section and a SHT_NOTE section over the same 20 bytes) -/
+def imgNote : Bytes := [
+   127, 69, 76, 70, 2, 1, 1, 0, 0, 0, 0, 0, 0, 0, 0, 0, 1, 0, 62, 0, 1, 0, 0, 0, 0, 0, 0, 0, 0, 0, 0, 0,
+   64, 0, 0, 0, 0, 0, 0, 0, 140, 0, 0, 0, 0, 0, 0, 0, 0, 0, 0, 0, 64, 0, 56, 0, 1, 0, 64, 0, 2, 0, 0, 0,
+   4, 0, 0, 0, 4, 0, 0, 0, 120, 0, 0, 0, 0, 0, 0, 0, 0, 0, 0, 0, 0, 0, 0, 0, 0, 0, 0, 0, 0, 0, 0, 0,
+   20, 0, 0, 0, 0, 0, 0, 0, 20, 0, 0, 0, 0, 0, 0, 0, 4, 0, 0, 0, 0, 0, 0, 0, 4, 0, 0, 0, 4, 0, 0, 0,
+   1, 0, 0, 0, 71, 78, 85, 0, 1, 2, 3, 4, 0, 0, 0, 0, 0, 0, 0, 0, 0, 0, 0, 0, 0, 0, 0, 0, 0, 0, 0, 0,
+   0, 0, 0, 0, 0, 0, 0, 0, 0, 0, 0, 0, 0, 0, 0, 0, 0, 0, 0, 0, 0, 0, 0, 0, 0, 0, 0, 0, 0, 0, 0, 0,
+   0, 0, 0, 0, 0, 0, 0, 0, 0, 0, 0, 0, 0, 0, 0, 0, 7, 0, 0, 0, 0, 0, 0, 0, 0, 0, 0, 0, 0, 0, 0, 0,
+   0, 0, 0, 0, 120, 0, 0, 0, 0, 0, 0, 0, 20, 0, 0, 0, 0, 0, 0, 0, 0, 0, 0, 0, 0, 0, 0, 0, 4, 0, 0, 0,
+   0, 0, 0, 0, 0, 0, 0, 0, 0, 0, 0, 0]
+
+/-- what a query answered, boiled down to something `decide` can compare -/
+def outDigest : Inspect.Out → List Nat
+  | .null => [0]
+  | .obj => [1]
+  | .str none => [2]
+  | .str (some s) => 3 :: s.map (·.toNat)
+  | .num n => [4, n]
+  | .note none => [5]
+  | .note (some n) => [6, n.type.toNat, n.name.length, n.descSize.toNat] ++ (n.desc.getD []).map (·.toNat)
+  | .dyn .invalid => [7]
+  | .dyn (.nostr t v) => [8, t.toNat, v.toNat]
+  | .dyn (.ok t v _) => [9, t.toNat, v.toNat]
+  | .attrs l => [10, l.length]
+  | .attr a => [11, if a.isSome then 1 else 0]
+  | .value v => [12, if v.isSome then 1 else 0]
+  | .sym r => [13, if r.ret then 1 else 0]
+  | .complaints l => [14, l.length]
+
+set_option maxRecDepth 100000 in
+example : InputBound imgNote := by unfold InputBound; decide
+
+/- lazy load of `imgNote`, then a sequence of queries with in- and out-of-range section, segment and
+   entry indices, wrong-typed accessors (dynamic / symbol / modinfo reader on the note section) and
+   the dump trace: the hypotheses of `load_inspect_total` are met, and the answers are the expected
+   ones (one note through the section and through the segment, descriptor bytes 1 2 3 4) -/
+set_option maxRecDepth 1000000 in
+example :
+    ((load {} { data := imgNote } true).toOption.bind fun r =>
+      (Inspect.inspectSeq r.obj [.noteNum 1, .note 1 0, .note 1 1, .note 1 4294967295, .segNoteNum 0,
+        .segNote 0 0, .segNote 3 0, .dynNum 1, .dyn 1 0, .symNum 1, .sym 1 0, .modinfo 1, .str 1 4, .dump,
+        .noteNum 7, .sec 1 true, .validate]).toOption.map fun p => p.2.map outDigest) =
+    some [[4, 1], [6, 1, 3, 4, 1, 2, 3, 4], [5], [5], [4, 1], [6, 1, 3, 4, 1, 2, 3, 4], [0], [4, 0], [7],
+      [4, 0], [13, 0], [10, 5], [3, 4], [1], [0], [1], [14, 0]] := by decide
 
 end ElfioVerif.C01
